@@ -370,12 +370,28 @@ async fn run(plan: &SwarmPlan, cx: &mut Cx, big_skew: bool) -> Res {
                     cx.probe("write_refused_on_read_only_relay");
                 }
                 cx.ev("write", format!("n{i} a{a} {} #{c} -> {}", hex::encode(k), r.is_ok()));
+                if r.is_ok() {
+                    // what was acknowledged is known without asking the node: the entry is signed
+                    // deterministically over (key, content, the node's wall clock)
+                    let e = Ent { d: 0, a: *a, k: k.clone(), ts: nodes[i].clock, c: *c };
+                    written.insert(postcard::to_stdvec(&e.signed()).unwrap());
+                    nodes[i].acked.push(e);
+                }
             }
             SStep::Delete { n: i, a, k } => {
                 let i = (*i as usize) % n;
                 let Some(nd) = nodes[i].node.as_ref() else { continue };
                 let r = nd.handle.delete_prefix(ns, w.author_id(*a), k.clone().into()).await;
                 cx.ev("delete", format!("n{i} a{a} {} -> {}", hex::encode(k), r.is_ok()));
+                if r.is_ok() {
+                    // an accepted deletion is a write of a deletion marker, whether or not it found
+                    // anything to remove on this node: older entries under the prefix that arrive
+                    // later must lose against it
+                    let e = Ent { d: 0, a: *a, k: k.clone(), ts: nodes[i].clock, c: 0 };
+                    written.insert(postcard::to_stdvec(&e.signed()).unwrap());
+                    nodes[i].acked.push(e);
+                    cx.probe("local_deletion_accepted");
+                }
             }
             SStep::Bulk { n: i, a, count, klen, first } => {
                 let i = (*i as usize) % n;
